@@ -43,6 +43,7 @@ type pkgSyms struct {
 	Funcs  map[string]string   // "F" / "T.M" → signature
 	Types  map[string][]string // named type → struct: "field\x00type"… ; otherwise: "=underlying"
 	Vars   map[string]string   // package-level variables and constants → "var T" / "const T = value"
+	Params map[string][]string // "F" / "T.M" → parameters in order, "name\x00type"
 	Locals map[string][]string // generated parser only: "F" → its parameters and locals, "name\x00type"
 	Bodies map[string]string   // "F" / "T.M" → what the body mentions (bodyPrints)
 }
@@ -74,12 +75,21 @@ func sigString(sig *types.Signature, q types.Qualifier) string {
 
 // symsOf builds the symbol table of one type-checked package.
 func symsOf(p *types.Package) *pkgSyms {
-	s := &pkgSyms{Funcs: map[string]string{}, Types: map[string][]string{}, Vars: map[string]string{}}
+	s := &pkgSyms{Funcs: map[string]string{}, Types: map[string][]string{}, Vars: map[string]string{}, Params: map[string][]string{}}
 	q := qualifierFor(p)
+	params := func(key string, sig *types.Signature) {
+		var l []string
+		for i := 0; i < sig.Params().Len(); i++ {
+			v := sig.Params().At(i)
+			l = append(l, v.Name()+"\x00"+types.TypeString(v.Type(), q))
+		}
+		s.Params[key] = l
+	}
 	for _, name := range p.Scope().Names() {
 		switch o := p.Scope().Lookup(name).(type) {
 		case *types.Func:
 			s.Funcs[name] = sigString(o.Type().(*types.Signature), q)
+			params(name, o.Type().(*types.Signature))
 		case *types.Var:
 			s.Vars[name] = "var " + types.TypeString(o.Type(), q)
 		case *types.Const:
@@ -120,6 +130,7 @@ func symsOf(p *types.Package) *pkgSyms {
 					}
 				}
 				s.Funcs[name+"."+m.Name()] = ptr + " " + sigString(sig, q)
+				params(name+"."+m.Name(), sig)
 			}
 		}
 	}
@@ -157,6 +168,20 @@ func dumpSyms(c *Ctx) {
 		fmt.Println("\t\tVars: map[string]string{")
 		for _, k := range sortedStrKeys(s.Vars) {
 			fmt.Printf("\t\t\t%q: %q,\n", k, s.Vars[k])
+		}
+		fmt.Println("\t\t},")
+		fmt.Println("\t\tParams: map[string][]string{")
+		var pk []string
+		for k := range s.Params {
+			pk = append(pk, k)
+		}
+		sort.Strings(pk)
+		for _, k := range pk {
+			var qs []string
+			for _, f := range s.Params[k] {
+				qs = append(qs, strconv.Quote(f))
+			}
+			fmt.Printf("\t\t\t%q: {%s},\n", k, strings.Join(qs, ", "))
 		}
 		fmt.Println("\t\t},")
 		fmt.Println("\t\tBodies: map[string]string{")
@@ -380,7 +405,7 @@ func normaliseRenames(c *Ctx) {
 	}
 	log := &renameLog{}
 	c.renames = log
-	for pass := 1; pass <= 3; pass++ {
+	for pass := 1; pass <= 4; pass++ {
 		ren := map[types.Object]string{}
 		tmplFields := map[string]string{} // Builder field renames, new → old (for the template text)
 		for _, p := range c.All {
@@ -397,6 +422,9 @@ func normaliseRenames(c *Ctx) {
 				detectMemberRenames(p, dir, base, cur, ren, tmplFields, log, false)
 			case 3:
 				detectMemberRenames(p, dir, base, cur, ren, tmplFields, log, true)
+			case 4:
+				cur.Bodies = nil
+				detectRehomed(p, dir, base, cur, ren, log)
 			}
 		}
 		if len(ren) == 0 {
@@ -416,6 +444,198 @@ func normaliseRenames(c *Ctx) {
 				log.err += "; and the original tree no longer type-checks: " + err2.Error()
 			}
 			return
+		}
+	}
+	// pass 5: parameters in another order
+	var units []*permUnit
+	for _, p := range c.All {
+		dir := strings.TrimPrefix(p.PkgPath, modPath+"/")
+		if base := baselineSyms[dir]; base != nil {
+			units = append(units, &permUnit{dir: dir, base: base, pkg: p.Types, info: p.TypesInfo, files: p.Syntax})
+		}
+	}
+	var allInfos []*types.Info
+	for _, p := range c.All {
+		allInfos = append(allInfos, p.TypesInfo)
+	}
+	var allFiles []*ast.File
+	for _, p := range c.All {
+		allFiles = append(allFiles, p.Syntax...)
+	}
+	if undo := permuteParams(units, allFiles, allInfos, log); undo != nil {
+		if err := recheckAll(c); err != nil {
+			undo()
+			log.err = "parameter order: " + err.Error()
+			_ = recheckAll(c)
+		}
+	}
+}
+
+type permUnit struct {
+	dir   string
+	base  *pkgSyms
+	pkg   *types.Package
+	info  *types.Info
+	files []*ast.File
+}
+
+// permuteParams: a function that both trees have, whose parameters are the baseline's in another order (same types,
+// matched by name, else by a type that occurs once), gets its declaration and every call of it rewritten to the
+// baseline order — rules address parameters and arguments by position. Returns nil when nothing was rewritten,
+// otherwise the function that undoes the rewriting (used when the rewritten tree does not type-check, e.g. because
+// the function is also used as a value of a function type).
+func permuteParams(units []*permUnit, files []*ast.File, infos []*types.Info, log *renameLog) func() {
+	type job struct {
+		obj  types.Object
+		perm []int // baseline position → current position
+	}
+	var jobs []job
+	var undos []func()
+	for _, u := range units {
+		cur := symsOf(u.pkg)
+		for key, bp := range u.base.Params {
+			cp, ok := cur.Params[key]
+			if !ok || len(cp) != len(bp) || len(bp) < 2 || u.base.Funcs[key] == cur.Funcs[key] {
+				continue
+			}
+			typ := func(s string) string { return s[strings.IndexByte(s, 0)+1:] }
+			name := func(s string) string { return s[:strings.IndexByte(s, 0)] }
+			perm := make([]int, len(bp))
+			used := make([]bool, len(cp))
+			okPerm := true
+			for i := range bp {
+				perm[i] = -1
+				for j := range cp {
+					if !used[j] && name(cp[j]) == name(bp[i]) && typ(cp[j]) == typ(bp[i]) {
+						perm[i] = j
+						break
+					}
+				}
+				if perm[i] >= 0 {
+					used[perm[i]] = true
+				}
+			}
+			for i := range bp {
+				if perm[i] >= 0 {
+					continue
+				}
+				cand := -1
+				for j := range cp {
+					if !used[j] && typ(cp[j]) == typ(bp[i]) {
+						if cand >= 0 {
+							cand = -2
+							break
+						}
+						cand = j
+					}
+				}
+				if cand < 0 {
+					okPerm = false
+					break
+				}
+				perm[i] = cand
+				used[cand] = true
+			}
+			identity := true
+			for i := range perm {
+				if perm[i] != i {
+					identity = false
+				}
+			}
+			if !okPerm || identity {
+				continue
+			}
+			// the object
+			var obj types.Object
+			if i := strings.IndexByte(key, '.'); i < 0 {
+				obj = u.pkg.Scope().Lookup(key)
+			} else if tn, _ := u.pkg.Scope().Lookup(key[:i]).(*types.TypeName); tn != nil {
+				if named, ok := tn.Type().(*types.Named); ok {
+					for k := 0; k < named.NumMethods(); k++ {
+						if named.Method(k).Name() == key[i+1:] {
+							obj = named.Method(k)
+						}
+					}
+				}
+			}
+			if obj == nil {
+				continue
+			}
+			jobs = append(jobs, job{obj, perm})
+			log.pairs = append(log.pairs, u.dir+"."+key+" parameter order")
+		}
+	}
+	if len(jobs) == 0 {
+		return nil
+	}
+	objOf := func(id *ast.Ident) types.Object {
+		for _, info := range infos {
+			if o := info.Defs[id]; o != nil {
+				return o
+			}
+			if o := info.Uses[id]; o != nil {
+				return o
+			}
+		}
+		return nil
+	}
+	for _, j := range jobs {
+		j := j
+		for _, f := range files {
+			ast.Inspect(f, func(n ast.Node) bool {
+				switch x := n.(type) {
+				case *ast.FuncDecl:
+					if objOf(x.Name) != j.obj || x.Type.Params == nil {
+						return true
+					}
+					var flat []*ast.Field
+					for _, fl := range x.Type.Params.List {
+						if len(fl.Names) == 0 {
+							flat = append(flat, fl)
+							continue
+						}
+						for _, nm := range fl.Names {
+							flat = append(flat, &ast.Field{Names: []*ast.Ident{nm}, Type: fl.Type})
+						}
+					}
+					if len(flat) != len(j.perm) {
+						return true
+					}
+					old := x.Type.Params.List
+					nl := make([]*ast.Field, len(flat))
+					for i, k := range j.perm {
+						nl[i] = flat[k]
+					}
+					x.Type.Params.List = nl
+					pl := x.Type.Params
+					undos = append(undos, func() { pl.List = old })
+				case *ast.CallExpr:
+					var id *ast.Ident
+					switch fn := unparen(x.Fun).(type) {
+					case *ast.Ident:
+						id = fn
+					case *ast.SelectorExpr:
+						id = fn.Sel
+					}
+					if id == nil || objOf(id) != j.obj || len(x.Args) != len(j.perm) {
+						return true
+					}
+					old := x.Args
+					na := make([]ast.Expr, len(old))
+					for i, k := range j.perm {
+						na[i] = old[k]
+					}
+					x.Args = na
+					call := x
+					undos = append(undos, func() { call.Args = old })
+				}
+				return true
+			})
+		}
+	}
+	return func() {
+		for i := len(undos) - 1; i >= 0; i-- {
+			undos[i]()
 		}
 	}
 }
@@ -876,6 +1096,7 @@ func dumpSkelSyms(c *Ctx) {
 		pl("Types", s.Types)
 		pm("Vars", s.Vars)
 		pm("Bodies", s.Bodies)
+		pl("Params", s.Params)
 		pl("Locals", s.Locals)
 		fmt.Println("\t},")
 	}
@@ -1013,4 +1234,237 @@ func normaliseSkeletonNames(c *Ctx) {
 			return
 		}
 	}
+}
+
+// ---------------------------------------------------------------------------------------------
+// Pass 4: functions that changed sides. A free function turned into a method (or a method that never used its
+// receiver turned into a function, or a method moved to another receiver) keeps its body and its callers but gets
+// another qualified name. What is left over after pass 3 is paired across owners — same short name, or bodies that
+// mention the same things — the short name is restored if it changed, and the function is entered in rehomedName:
+// rules find it under the name it had, and the inlining normaliser does not take it for a new helper.
+func detectRehomed(p *packages.Package, dir string, base, cur *pkgSyms, ren map[types.Object]string, log *renameLog) {
+	var gone, fresh []string
+	for n := range base.Funcs {
+		if _, ok := cur.Funcs[n]; !ok && !strings.HasPrefix(base.Funcs[n], "I ") {
+			gone = append(gone, n)
+		}
+	}
+	for n := range cur.Funcs {
+		if _, ok := base.Funcs[n]; !ok && !strings.HasPrefix(cur.Funcs[n], "I ") {
+			fresh = append(fresh, n)
+		}
+	}
+	if len(gone) == 0 || len(fresh) == 0 {
+		return
+	}
+	sort.Strings(gone)
+	sort.Strings(fresh)
+	split := func(k string) (owner, short string) {
+		if i := strings.IndexByte(k, '.'); i >= 0 {
+			return k[:i], k[i+1:]
+		}
+		return "", k
+	}
+	curBodies := bodyPrints(p)
+	bodyD := func(g, n string) float64 {
+		bg, okG := base.Bodies[g]
+		bn, okN := curBodies[n]
+		if !okG || !okN {
+			return 1
+		}
+		return jaccardDissim(bg, bn)
+	}
+	m := matchNames(gone, fresh, func(g, n string) bool {
+		og, sg := split(g)
+		on, sn := split(n)
+		if og == on {
+			return false // same owner: pass 3's business
+		}
+		return sg == sn || bodyD(g, n) <= 0.5
+	}, func(g, n string) float64 {
+		_, sg := split(g)
+		_, sn := split(n)
+		return (2*bodyD(g, n) + nameDissim(sg, sn)) / 3
+	})
+	display := func(key, sig string) string {
+		o, s := split(key)
+		switch {
+		case o == "":
+			return dir + "." + s
+		case strings.HasPrefix(sig, "* "):
+			return fmt.Sprintf("%s.(*%s).%s", dir, o, s)
+		default:
+			return fmt.Sprintf("%s.(%s).%s", dir, o, s)
+		}
+	}
+	scope := p.Types.Scope()
+	for n, g := range m {
+		on, sn := split(n)
+		_, sg := split(g)
+		if sn != sg {
+			// restore the short name as well
+			var o types.Object
+			if on == "" {
+				o = scope.Lookup(sn)
+			} else if tobj, _ := scope.Lookup(on).(*types.TypeName); tobj != nil {
+				if named, ok := tobj.Type().(*types.Named); ok {
+					for i := 0; i < named.NumMethods(); i++ {
+						if named.Method(i).Name() == sn {
+							o = named.Method(i)
+						}
+					}
+				}
+			}
+			if o == nil {
+				continue
+			}
+			ren[o] = sg
+		}
+		curKey := sg
+		if on != "" {
+			curKey = on + "." + sg
+		}
+		rehomedName[display(curKey, cur.Funcs[n])] = display(g, base.Funcs[g])
+		log.pairs = append(log.pairs, dir+"."+n+"⇒"+g)
+	}
+}
+
+// ---------------------------------------------------------------------------------------------
+// changeSides: in ONE type-checked package (used for the generated parser's skeletons), a function of the baseline
+// that is now a method whose receiver is the baseline's first parameter — or the other way round — is rewritten to
+// the baseline's form, declaration and calls (`x.F(a…)` ↔ `F(x, a…)`, with `&` / `*` where the receiver's
+// pointer-ness asks for it). Returns whether anything was rewritten; the caller type-checks again.
+func changeSides(base *pkgSyms, pkg *types.Package, info *types.Info, file *ast.File, log *renameLog) bool {
+	cur := symsOf(pkg)
+	split := func(k string) (string, string) {
+		if i := strings.IndexByte(k, '.'); i >= 0 {
+			return k[:i], k[i+1:]
+		}
+		return "", k
+	}
+	type job struct {
+		toFunc bool // current is a method, baseline a function
+		owner  string
+		name   string
+		ptr    bool
+	}
+	var jobs []job
+	for bk, bsig := range base.Funcs {
+		if _, ok := cur.Funcs[bk]; ok {
+			continue
+		}
+		bo, bn := split(bk)
+		for ck, csig := range cur.Funcs {
+			if _, ok := base.Funcs[ck]; ok {
+				continue
+			}
+			co, cn := split(ck)
+			if cn != bn || (bo == "") == (co == "") {
+				continue
+			}
+			if bo == "" {
+				// baseline function F(T|*T, rest…), current method (T|*T).F(rest…)
+				ptr := strings.HasPrefix(csig, "* ")
+				recvT := co
+				if ptr {
+					recvT = "*" + co
+				}
+				rest := strings.TrimPrefix(strings.TrimPrefix(csig, "* "), " ")
+				want := strings.Replace(rest, "func(", "func("+recvT+", ", 1)
+				want = strings.Replace(want, ", )", ")", 1)
+				if want == bsig {
+					jobs = append(jobs, job{true, co, cn, ptr})
+				}
+			} else {
+				ptr := strings.HasPrefix(bsig, "* ")
+				recvT := bo
+				if ptr {
+					recvT = "*" + bo
+				}
+				rest := strings.TrimPrefix(strings.TrimPrefix(bsig, "* "), " ")
+				want := strings.Replace(rest, "func(", "func("+recvT+", ", 1)
+				want = strings.Replace(want, ", )", ")", 1)
+				if want == csig {
+					jobs = append(jobs, job{false, bo, bn, ptr})
+				}
+			}
+		}
+	}
+	if len(jobs) == 0 {
+		return false
+	}
+	changed := false
+	for _, j := range jobs {
+		var obj types.Object
+		var decl *ast.FuncDecl
+		for _, d := range file.Decls {
+			fd, ok := d.(*ast.FuncDecl)
+			if !ok || fd.Name.Name != j.name {
+				continue
+			}
+			rn, _ := recvTypeName(fd)
+			if (j.toFunc && rn == j.owner) || (!j.toFunc && rn == "") {
+				decl, obj = fd, info.Defs[fd.Name]
+			}
+		}
+		if decl == nil || obj == nil {
+			continue
+		}
+		if j.toFunc {
+			if decl.Recv == nil || len(decl.Recv.List) != 1 {
+				continue
+			}
+			decl.Type.Params.List = append([]*ast.Field{decl.Recv.List[0]}, decl.Type.Params.List...)
+			decl.Recv = nil
+			ast.Inspect(file, func(n ast.Node) bool {
+				call, ok := n.(*ast.CallExpr)
+				if !ok {
+					return true
+				}
+				se, ok := unparen(call.Fun).(*ast.SelectorExpr)
+				if !ok || info.Uses[se.Sel] != obj {
+					return true
+				}
+				x := se.X
+				if tv, ok := info.Types[x]; ok {
+					_, isPtr := tv.Type.Underlying().(*types.Pointer)
+					if j.ptr && !isPtr {
+						x = &ast.UnaryExpr{OpPos: x.Pos(), Op: token.AND, X: x}
+					} else if !j.ptr && isPtr {
+						x = &ast.StarExpr{Star: x.Pos(), X: x}
+					}
+				}
+				call.Fun = &ast.Ident{NamePos: se.Sel.NamePos, Name: j.name}
+				call.Args = append([]ast.Expr{x}, call.Args...)
+				return true
+			})
+		} else {
+			if decl.Type.Params == nil || len(decl.Type.Params.List) == 0 || len(decl.Type.Params.List[0].Names) != 1 {
+				continue
+			}
+			first := decl.Type.Params.List[0]
+			decl.Recv = &ast.FieldList{Opening: decl.Name.Pos(), List: []*ast.Field{first}, Closing: decl.Name.Pos()}
+			decl.Type.Params.List = decl.Type.Params.List[1:]
+			ast.Inspect(file, func(n ast.Node) bool {
+				call, ok := n.(*ast.CallExpr)
+				if !ok || len(call.Args) == 0 {
+					return true
+				}
+				id, ok := unparen(call.Fun).(*ast.Ident)
+				if !ok || info.Uses[id] != obj {
+					return true
+				}
+				x := call.Args[0]
+				if u, isU := unparen(x).(*ast.UnaryExpr); isU && u.Op == token.AND {
+					x = u.X // the method call takes the address itself
+				}
+				call.Fun = &ast.SelectorExpr{X: &ast.ParenExpr{Lparen: x.Pos(), X: x, Rparen: x.End()}, Sel: &ast.Ident{NamePos: id.NamePos, Name: j.name}}
+				call.Args = call.Args[1:]
+				return true
+			})
+		}
+		changed = true
+		log.pairs = append(log.pairs, "generated parser "+j.name+" function ↔ method")
+	}
+	return changed
 }
